@@ -1,0 +1,25 @@
+//go:build verif
+
+package br
+
+// Contracts for the goblvc verifier (see /verif/DESIGN.md). Comments only.
+//
+// C13 (Brazil, CNPJ): fourteen digits. The thirteenth digit checks the first twelve with
+// weights 5 4 3 2 9 8 7 6 5 4 3 2, the fourteenth the first thirteen with weights
+// 6 5 4 3 2 9 8 7 6 5 4 3 2: with r the weighted sum modulo 11 the digit is 0 when r < 2
+// and 11 - r otherwise.
+//@ rec brSum(s string, w []int, k int) int = ite(k <= 0, 0, brSum(s, w, k - 1) + (s_byte(s, k - 1) - 48) * w[k-1])
+//@ spec brDigit(sum int) int = ite(sum % 11 < 2, 0, 11 - sum % 11)
+//@ func verifyDigit(cnpj, weights, position) (err)
+//@   requires len(cnpj) == 14 && len(weights) <= 13 && len(weights) <= position && position < 14 && (forall i int :: 0 <= i && i < len(weights) ==> 0 <= weights[i] && weights[i] <= 9)
+//@   ensures [iff] err == nil <==> digitsIn(cnpj, 0, len(weights)) && s_byte(cnpj, position) >= 48 && s_byte(cnpj, position) <= 57 && s_byte(cnpj, position) - 48 == brDigit(brSum(cnpj, weights, len(weights)))
+//@   loop 1 invariant 0 <= i && i <= len(weights) && digitsIn(cnpj, 0, i) && sum == brSum(cnpj, weights, i) && sum >= 0 && sum <= 81 * i
+//
+//@ spec brW1(i int) int = ite(i < 4, 5 - i, 13 - i)
+//@ spec brW2(i int) int = ite(i < 5, 6 - i, 14 - i)
+//@ rec brSum1(s string, k int) int = ite(k <= 0, 0, brSum1(s, k - 1) + (s_byte(s, k - 1) - 48) * brW1(k - 1))
+//@ rec brSum2(s string, k int) int = ite(k <= 0, 0, brSum2(s, k - 1) + (s_byte(s, k - 1) - 48) * brW2(k - 1))
+//@ func validateTaxCode(value) (err)
+//@   let code = unboxed(value, cbc.Code)
+//@   ensures [iff] typeis(value, cbc.Code) && code != "" ==> (err == nil <==> len(code) == 14 && digitsIn(code, 0, 14) && s_byte(code, 12) - 48 == brDigit(brSum1(code, 12)) && s_byte(code, 13) - 48 == brDigit(brSum2(code, 13)))
+//@   ensures [skip] !typeis(value, cbc.Code) || code == "" ==> err == nil
